@@ -114,3 +114,39 @@ void h_CreateB(void)
 //@run name=CreateConvert64.bounded entry=h_CreateB defs=BOUNDED unwind=5 flags=SAFETY timeout=600 bounded="at most 3 paths x at most 3 points, all sizes and coordinates symbolic"
 //@run name=CreateConvert64.bounded.z entry=h_CreateB defs=BOUNDED,USINGZ unwind=5 flags=SAFETY timeout=600 bounded="at most 3 paths x at most 3 points, all sizes, coordinates and z symbolic (USINGZ layout)" props=C17,C15,C10,C14
 //@assume bounded: a proof of CreateCPathsFromPathsT with inner loop contracts (points per path unbounded) was attempted and needs > 28 GB / > 5 min (symbolic-size allocation + whole-object havoc); the bounded run stands in.
+
+/* ---- USINGZ: z travels through the double array as raw bits (ConvertCPathsDToPaths64) ---- */
+#ifdef ZBITS
+typedef struct { int64_t x, y, z; } PointZ;
+typedef struct { PointZ* data; size_t size; size_t cap; } OutPathZ;
+typedef struct { OutPathZ* data; size_t size; size_t cap; } OutPathsZ;
+double* g_rdd_base; size_t g_rdd_len;
+#define VF_RDD() (__CPROVER_assert((size_t)(v - g_rdd_base) < g_rdd_len, "read inside the stated array length"), *v++)
+double vf_scaled(double v, double scale) { return 0.0; }   /* x*scale, y*scale: rounding is not part of this check */
+//@extract file=CPP/Clipper2Lib/include/clipper2/clipper.export.h func=ConvertCPathsDToPaths64 ifdef=ZBITS cpp=USINGZ vec=result,path
+//@presub /static Paths64 ConvertCPathsDToPaths64\(const CPathsD paths/static OutPathsZ ConvertCPathsDToPaths64(double* paths/
+//@presub /Paths64 result;/OutPathsZ result = {0};/
+//@presub /Path64 path;/OutPathZ path = {0};/
+//@presub /double\* v = paths;/double* v = paths; g_rdd_base = paths; g_rdd_len = (size_t)paths[0];/
+//@presub /double x = \*v\+\+ \* scale;/double x = vf_scaled(VF_RDD(), scale);/
+//@presub /double y = \*v\+\+ \* scale;/double y = vf_scaled(VF_RDD(), scale);/
+//@presub /path\.emplace_back\(x, y, z\);/VF_PUSH(path, ((PointZ){(int64_t)x, (int64_t)y, z}));/
+//@presub /result\.emplace_back\(std::move\(path\)\);/VF_PUSH(result, path);/
+//@sub /\(size_t\)\(\*v\+\+\)/(size_t)(VF_RDD())/
+//@sub /\(size_t\)\(\*v\)/(size_t)(v[0])/
+//@sub /Reinterpret<z_type>\(\*v\+\+\)/Reinterpret_d2z(VF_RDD())/ min=0
+//@sub /\(z_type\)\(\*v\+\+\)/(z_type)(VF_RDD())/ min=0
+//@end
+int64_t nondet_i64(void); double nondet_double(void);
+void h_ZBits(void)
+{
+  int64_t z0 = nondet_i64(), z1 = nondet_i64();
+  /* one path of two vertices in the USINGZ layout: [len, count, size, 0, x, y, zbits, x, y, zbits] */
+  double arr[10] = { 10.0, 1.0, 2.0, 0.0, nondet_double(), nondet_double(), Reinterpret_z2d(z0), nondet_double(), nondet_double(), Reinterpret_z2d(z1) };
+  OutPathsZ r = ConvertCPathsDToPaths64(arr, nondet_double());
+  __CPROVER_assert(r.size == 1 && r.data[0].size == 2, "one path of two vertices");
+  __CPROVER_assert(r.data[0].data[0].z == z0 && r.data[0].data[1].z == z1, "z values are carried bit for bit");
+  VF_CANARY();
+}
+#endif
+//@run name=ConvertCPathsDToPaths64.zbits entry=h_ZBits defs=ZBITS,USINGZ unwind=4 flags="--bounds-check --pointer-check" timeout=300 bounded="one path of two vertices; all z values symbolic" props=C17,C15
